@@ -141,6 +141,9 @@ package soyhtml
 //@   at call template.HTMLEscapeString#0 assert[escapes-the-value] arg0 == vs
 //@   at call template.HTMLEscapeString#0 after set esc = res
 //@   at call (*bytes.Buffer).WriteString#0 set breaks = breaks + 1
+//@   at call (*bytes.Buffer).WriteString#0 assert[only-the-break-tag-is-added;C03,C16] arg1 == "<wbr>"
+//@   at call bytes.NewBufferString#0 assert[output-starts-as-a-prefix-of-the-escaped-text;C03,C16] substr(arg0, esc, 0)
+//@   at call template.HTMLEscapeString#* assert[only-the-whole-value-is-escaped-once;C03,C16] arg0 == vs
 //@   ensures[no-raw-data] breaks == 0 ==> typeis(result, data.String) && unbox(result, data.String) == esc
 //@   loop 0
 //@     invariant breaks >= 0 && (isnil(output) == (breaks == 0))
@@ -692,6 +695,7 @@ package soyhtml
 //@   at call template.JSEscapeString#0 after set done = true
 //@   ensures[result-is-the-encoders-output;C16] done && typeis(result, data.String) && unbox(result, data.String) == enc
 //@ func directiveJson
+//@   nomethod[value-types-are-encoded-by-encoding/json's-own-rules;C16] data.Int.MarshalJSON data.Float.MarshalJSON data.String.MarshalJSON data.Bool.MarshalJSON data.List.MarshalJSON data.Map.MarshalJSON data.Int.MarshalText data.Float.MarshalText data.String.MarshalText data.Bool.MarshalText
 //@   like renderFn
 //@   props C16 C08 C09
 //@   nosafety
@@ -723,7 +727,23 @@ package soyhtml
 //@   modifies r.msgs
 //@   ensures result == r
 //@ func (*Tofu).NewRenderer
-//@   props C08 C09
+//@   props C08 C09 C12
 //@   nosafety
 //@   pure
 //@   ensures[fresh-renderer;C08] result != nil && fresh(result)
+//@   ensures[a-renderer-of-this-tofu-for-that-template;C12] result.tofu == tofu && same(result.name, name)
+
+// C12 (and C06): Tofu.Render is Execute on a fresh renderer: whatever Execute
+// returns - in particular the error of a failed write - is what Render returns,
+// and nothing runs after it that could replace it.
+//@ func (Tofu).Render
+//@   props C12 C06
+//@   nosafety
+//@   modifies *
+//@   at call (Renderer).Execute#0 assume arg0.tofu != nil && arg0.tofu.registry != nil ==> registryOK(arg0.tofu.registry)
+//@   ghost ran bool = false
+//@   ghost ge error = nil
+//@   at call (Renderer).Execute#0 assert[renders-into-the-caller's-writer;C12] arg1 == wr
+//@   at call (Renderer).Execute#0 after set ge = res
+//@   at call (Renderer).Execute#0 after set ran = true
+//@   ensures[the-render's-error-is-returned-unchanged;C12] ran ==> result == ge
